@@ -275,7 +275,8 @@ m = {
            "add_only": True},
  "engines": [
    {"name": "tlc", "path": "/opt/veriftools/tla/tla2tools.jar", "serves_properties": sorted(CHECKS), "kind_free_text": "TLA+ explicit-state model checker (exhaustive, simulation, trace validation)"},
-   {"name": "vh", "path": "/verif/harness", "serves_properties": sorted(CHECKS), "kind_free_text": "Rust conformance harness linked against /repo/yarel with --cfg yarel_verif"}],
+   {"name": "vh", "path": "/verif/harness", "serves_properties": sorted(CHECKS), "kind_free_text": "Rust conformance harness linked against /repo/yarel with --cfg yarel_verif"},
+   {"name": "apalache", "path": "/opt/veriftools/apalache", "serves_properties": ["C16"], "kind_free_text": "symbolic TLA+ model checker: inductive invariant of spec/apalache/Pacing.tla over unbounded integers (supplementary; TLC + replay decide the property)"}],
  "checks": [],
  "not_applicable": [],
  "notes": "Model-based verification with explicit TLA+ specifications (spec/), bound to the code by replay and trace validation; see DESIGN.md.",
